@@ -36,19 +36,9 @@ def load_known():
 
 
 def native_replay(rec, paths, profile='dev'):
-    """re-run a counterexample against the real build; returns ('violation'|'panic'|'pass'|'aborted', msg, role)"""
     nat = implmod.NativeImpl(paths['native_dev' if profile == 'dev' else 'native_rel'])
     try:
-        ctx = ConcCtx(rec['values'], nat)
-        try:
-            HARNESSES[rec['harness']](ctx, rec['params'])
-            return 'pass', '', None
-        except Violation as v:
-            return 'violation', v.msg, v.role
-        except implmod.ImplPanic as e:
-            return 'panic', str(e), None
-        except PathAbort:
-            return 'aborted', '', None
+        return explore.native_replay(rec['harness'], rec['params'], rec['values'], nat)
     finally:
         nat.close()
 
@@ -109,7 +99,7 @@ def main():
         return 2
 
     deadline = spec.get('deadline', {}).get(a.tier, 170 if a.tier == 'quick' else 2400)
-    init_args = (paths['mir'], paths['repo'], paths['src'], paths['native_dev'], PROP_MODULES_PRESENT())
+    init_args = (paths['mir'], paths['repo'], paths['src'], paths['native_dev'], PROP_MODULES_PRESENT(), [k['role'] for k in known])
     states, funcs_hit, models_hit = explore.run_jobs(jobs, init_args, nworkers=a.workers, deadline_s=deadline,
                                                      validate_every=spec.get('validate_every', {}).get(a.tier, 20), seed=seed, log=log)
 
@@ -138,6 +128,11 @@ def main():
             json.dump(dict(property=prop, harness=v['harness'], params=v['params'], values=v['values'], msg=v['msg'], role=role,
                            native_dev=f'{st}: {msg}', native_release=f'{st_rel}: {msg_rel}'), open(rp, 'w'), indent=1)
             violations.append(dict(replay=rp, msg=v['msg'], role=role, input=describe_values(v['values']), native_dev=st, native_release=st_rel))
+    for s in states:
+        for role, k in s.known.items():
+            kn = [x for x in known if x['role'] == role]
+            d = known_hits.setdefault(role, dict(text=kn[0]['text'], example=describe_values(k['example']['values']), n=0))
+            d['n'] += k['n']
     tv_mis = [m for s in states for m in s.tv_mismatch]
 
     # cover points (vacuity guard): every label declared by the harnesses that ran must have been reached
